@@ -5,6 +5,7 @@ package main
 
 import (
 	"fmt"
+	"go/types"
 	"math/big"
 	"strconv"
 	"strings"
@@ -38,6 +39,9 @@ func typeSort(t string) string {
 	}
 	if opaqueSort(t) != nil {
 		return t
+	}
+	if strings.HasPrefix(t, "[]") {
+		return "[]" + typeSort(t[2:])
 	}
 	cfail("unknown contract type %q", t)
 	return ""
@@ -86,7 +90,7 @@ func realLit(s string) string {
 
 func toReal(a Sc) Sc {
 	if a.S == SInt {
-		if !strings.ContainsAny(a.T, "( ") {
+		if _, err := strconv.ParseInt(a.T, 10, 64); err == nil {
 			return Sc{a.T + ".0", SReal}
 		}
 		return Sc{app("to_real", a.T), SReal}
@@ -128,6 +132,9 @@ func (e *Engine) ceval(x CExpr, env *Env) Value {
 		return Sc{"false", SBool}
 	case *CIdent:
 		if s, ok := env.bound[n.Name]; ok {
+			if strings.HasPrefix(s, "[]") {
+				return ColV{Row: n.Name + ".row", Off: n.Name + ".off", Sort: s[2:]}
+			}
 			return Sc{n.Name, s}
 		}
 		if n.Name == "$k" {
@@ -232,6 +239,8 @@ func (e *Engine) ceval(x CExpr, env *Env) Value {
 			return Sc{app("select", app("select", e.heapFor(env, es), b.Ref), elemIx(b.Off, idx.T)), es}
 		case OSeqV:
 			return b.at(idx.T)
+		case ColV:
+			return Sc{app("select", b.Row, elemIx(b.Off, idx.T)), b.Sort}
 		case MapV:
 			if b.Global != nil {
 				v, _ := e.tableLookup(env.st, env.fc, b.Global, idx)
@@ -277,6 +286,24 @@ func (e *Engine) ceval(x CExpr, env *Env) Value {
 				}
 				cfail("no field %s in %s", n.Name, ot.GoType)
 			}
+		}
+		if sl, ok := base.(SliceV); ok {
+			// a column of a slice of structs: x.Field where x is []Struct
+			if stt, isStruct := sl.Elem.Underlying().(*types.Struct); isStruct && env.fc != nil && env.st != nil {
+				for i := 0; i < stt.NumFields(); i++ {
+					if stt.Field(i).Name() != n.Name {
+						continue
+					}
+					ss, ok := scalarSort(stt.Field(i).Type())
+					if !ok {
+						cfail("column %s is not scalar", n.Name)
+					}
+					for _, k := range leafKeysForPath(sl.Elem, []int{i}) {
+						return ColV{Row: app("select", env.fc.heap(env.st, k), sl.Ref), Off: sl.Off, Len: sl.Len, Sort: ss}
+					}
+				}
+			}
+			cfail("no column %s", n.Name)
 		}
 		sv, ok := base.(StructV)
 		if !ok {
@@ -486,8 +513,26 @@ func (e *Engine) cevalCall(n *CCall, env *Env) Value {
 	}
 	var as []string
 	for i, p := range sp.Params {
-		a := sarg(i)
 		ps := typeSort(p.Type)
+		if strings.HasPrefix(ps, "[]") {
+			switch cv := arg(i).(type) {
+			case ColV:
+				if cv.Sort != ps[2:] {
+					cfail("argument %d of %s: column of %s, want %s", i+1, n.Fn, cv.Sort, ps[2:])
+				}
+				as = append(as, cv.Row, cv.Off)
+			case SliceV:
+				es, ok := scalarSort(cv.Elem)
+				if !ok || es != ps[2:] {
+					cfail("argument %d of %s: slice element sort mismatch", i+1, n.Fn)
+				}
+				as = append(as, app("select", e.heapFor(env, es), cv.Ref), cv.Off)
+			default:
+				cfail("argument %d of %s must be a slice or a column", i+1, n.Fn)
+			}
+			continue
+		}
+		a := sarg(i)
 		if a.S != ps {
 			if ps == SReal && a.S == SInt {
 				a = toReal(a)
@@ -509,7 +554,12 @@ func (e *Engine) specDeclSMT(id string) string {
 	sp := e.cs.Specs[id]
 	var ps []string
 	for _, p := range sp.Params {
-		ps = append(ps, typeSort(p.Type))
+		s := typeSort(p.Type)
+		if strings.HasPrefix(s, "[]") {
+			ps = append(ps, "(Array Int "+s[2:]+")", "Int")
+			continue
+		}
+		ps = append(ps, s)
 	}
 	if sp.Def != nil || sp.Table != "" {
 		return "" // emitted as define-fun together with axioms
@@ -525,6 +575,11 @@ func (e *Engine) specAxiomsSMT(id string) string {
 	for _, p := range sp.Params {
 		s := typeSort(p.Type)
 		bound[p.Name] = s
+		if strings.HasPrefix(s, "[]") {
+			binders = append(binders, fmt.Sprintf("(%s.row (Array Int %s))", p.Name, s[2:]), fmt.Sprintf("(%s.off Int)", p.Name))
+			names = append(names, p.Name+".row", p.Name+".off")
+			continue
+		}
 		binders = append(binders, fmt.Sprintf("(%s %s)", p.Name, s))
 		names = append(names, p.Name)
 	}
